@@ -196,6 +196,9 @@ func (se *SessionExecutor) handleStmtExecute(reqCtx *util.RequestContext, data [
 		}
 
 		if err := se.bindStmtArgs(s, nullBitmaps, s.GetParamTypes(), paramValues); err != nil {
+			// a failed execution must not leave the values it already bound (or the long
+			// data sent for it) behind for the next execution of this statement
+			s.ResetParams()
 			return nil, err
 		}
 
